@@ -27,7 +27,7 @@ class C10(Prop):
     pkg = "hdog"
     binname = "c10"
     quick_cases = 2400
-    thorough_cases = 40000
+    thorough_cases = 15000
     shard = 250
     design_ref = "DESIGN.md 4 C10"
     technique = ("Coq proof: (i) an interleaving machine with one step per atomic access of AtomicCounter/AtomicGauge "
@@ -41,7 +41,8 @@ class C10(Prop):
                   "and the idle logic drops only zero deltas; once updates stop at most one more zero is sent and then nothing; "
                   "every gauge flush returns the fold of exactly the writes executed before its load; sequentially: idle-once, "
                   "absolute conservation without wrap, histogram values each in exactly one flush, timestamp iff Aggressive. "
-                  "Tied to /repo by running the same histories and schedules on the real code.")
+                  "Tied to /repo by running the same histories and schedules on the real code, plus a free-running stress "
+                  "(real threads, no scheduler) judged by the conservation identities.")
     level_note = ("SC interleaving (the code's Relaxed/Acquire/Release orderings are weaker). The registry (key -> cell map) is "
                   "not modelled: keys are independent cells. AtomicBucket/reservoir are a sequential bag (C05/C16 own their "
                   "concurrency). A first absolute racing a flush is the open finding C10-rebase-straddle. The payload parser of "
@@ -166,6 +167,45 @@ class C10(Prop):
             else:   # flusher first for a while (reach the idle state), then interleave
                 sched.append(pos if len(sched) < 6 else rng.below(nt))
         return dict(kind="S", progs=progs, sched=sched)
+
+    # ------------------------------------------------------------------ free-running stress (no scheduler)
+    def extra_checks(self, ctx):
+        """real threads, no scheduler callback installed (own process): updaters increment one counter by a known
+        total and set a gauge while one thread flushes in a loop (raw AtomicCounter::flush, State::flush, alternating);
+        judged by the property: the deltas add up to the increments (mod 2^64), no delta exceeds the total, the flush
+        after the last (post-join) set reports that value.  Catches added/removed shared accesses that schedule replay
+        cannot see (they would run inside one scheduled step)."""
+        from . import core
+        big = ctx["tier"] == "thorough"
+        k = 5 if big else 1
+        confs = [(4, 20000 * k, 1, 0), (8, 10000 * k, 3, 1), (6, 20000 * k, 7, 2), (4, 20000 * k, (1 << 61) + 1, 2),
+                 (2, 50000 * k, TWO64 - 1, 0), (8, 5000 * k, 5, 1)]
+        lines = ["X %d %d %d %d" % c for c in confs]
+        rc, outs, err = core.run_impl(ctx["binpath"], lines, timeout=300)
+        viol, flushes, nonzero = [], 0, 0
+        if rc != 0 or len(outs) != len(lines):
+            raise core.MachineryBroken("stress driver failed: rc=%s %s" % (rc, err[-500:]))
+        for (t, n, v, mode), line in zip(confs, outs):
+            f = line.split()
+            total = t * n * v
+            ssum, smax, nfl, nz, g = int(f[1]), int(f[2]), int(f[3]), int(f[4]), f[5]
+            flushes += nfl
+            nonzero += nz
+            bad = []
+            if ssum != total % TWO64:
+                bad.append("deltas add up to %d, increments to %d (mod 2^64)" % (ssum, total % TWO64))
+            if total < TWO64 and smax > total:
+                bad.append("a single delta %d exceeds everything added %d" % (smax, total))
+            if g != "424242":
+                bad.append("the flush after the last set reported gauge %s, not 424242" % g)
+            if bad:
+                viol.append(("stress", "free-running stress (threads=%d incs=%d value=%d mode=%d): %s" % (t, n, v, mode, "; ".join(bad)),
+                             dict(stress_line="X %d %d %d %d" % (t, n, v, mode), driver_out=line)))
+        ctx["coverage"]["stress_runs"] = len(confs)
+        ctx["coverage"]["stress_increments"] = sum(t * n for t, n, _, _ in confs)
+        ctx["coverage"]["stress_flushes"] = flushes
+        ctx["coverage"]["stress_nonzero_deltas"] = nonzero
+        return viol
 
     # ------------------------------------------------------------------ driver protocol
     @staticmethod
